@@ -96,3 +96,52 @@ func (c *BadCodec) Decode(oldPixelData, newPixelData imagetypes.PixelData, param
 }
 
 var _ codec.Codec = (*BadCodec)(nil)
+
+// SkipCodec drops frames silently: ORDER-FRAMES control.
+type SkipCodec struct{}
+
+func (c *SkipCodec) Name() string                            { return "skip" }
+func (c *SkipCodec) TransferSyntax() *transfer.Syntax        { return nil }
+func (c *SkipCodec) GetDefaultParameters() codec.Parameters { return nil }
+
+func (c *SkipCodec) Encode(oldPixelData, newPixelData imagetypes.PixelData, parameters codec.Parameters) error {
+	n := oldPixelData.FrameCount()
+	for i := 0; i < n; i++ {
+		f, err := oldPixelData.GetFrame(i)
+		if err != nil {
+			return err
+		}
+		if len(f) == 0 {
+			continue // frame skipped without error
+		}
+		if err := newPixelData.AddFrame(append([]byte(nil), f...)); err != nil {
+			return err
+		}
+	}
+	return nil
+}
+
+func (c *SkipCodec) Decode(oldPixelData, newPixelData imagetypes.PixelData, parameters codec.Parameters) error {
+	n := oldPixelData.FrameCount()
+	for i := 0; i < n; i++ {
+		f, err := oldPixelData.GetFrame(i)
+		if err != nil {
+			return err
+		}
+		if err := newPixelData.AddFrame(append([]byte(nil), f...)); err != nil {
+			return err
+		}
+	}
+	return nil
+}
+
+var _ codec.Codec = (*SkipCodec)(nil)
+
+// EmitInMapOrder writes bytes while ranging over a map: MAP-RANGE control.
+func EmitInMapOrder(m map[int][]byte) []byte {
+	var out []byte
+	for _, v := range m {
+		out = append(out, v...)
+	}
+	return out
+}
